@@ -229,10 +229,10 @@ Section RoundTrip.
     merklize_entries T Hd E es = Ok (mz_tree m0).
   Proof.
     destruct (merklize_from_entries_wf T Hd h es m0 Huse Hm0) as (Hwf & Hh & Hsnd).
-    repeat split; auto.
-    unfold merklize_from_entries in Hm0.
-    apply bind_ok in Hm0. destruct Hm0 as (mp & _ & H1).
-    apply bind_ok in H1. destruct H1 as (t & Hmk & H2). inversion H2; subst m0. exact Hmk.
+    split; [exact Hwf|]. split; [exact Hh|]. split; [exact Hsnd|].
+    pose proof Hm0 as Hm. unfold merklize_from_entries in Hm.
+    apply bind_ok in Hm. destruct Hm as (mp & _ & H1).
+    apply bind_ok in H1. destruct H1 as (t & Hmk & H2). inversion H2 as [H3]. cbn [mz_tree]. exact Hmk.
   Qed.
 
   Variable pi : list (Z * rdf_entry).
@@ -498,7 +498,7 @@ Definition exH : hasher :=
   {| h_prime := 21888242871839275222246405745257275088548364400416034343698204186575808495617;
      h_hash := fun l => OV (fold_left (fun a x => a * 31 + x + 5) l 17);
      h_bytes := fun s => OV (Z.of_nat (String.length s) * 1000 + 3) |}.
-Definition exT : tparams := mktp (fun k v => 3 * k + 5 * v + 1) (fun l r => 7 * l + 11 * r + 2) 40 (2 ^ 253).
+Definition exT : tparams := mktp (fun k v => 3 * k + 5 * v + 1) (fun l r => 7 * l + 11 * r + 2) 40 (2 ^ 256).
 Definition exE (parts : list part) (v : xval) (dt : string) : rdf_entry :=
   mkentry (mkpath parts (Some exH)) v dt (Some exH).
 Definition ex_entries : list rdf_entry :=
